@@ -386,6 +386,14 @@ class Counter:
         self.calls.append(a)
 
 
+class Listener:
+    def __init__(self):
+        self.counter = Counter('listener')
+
+    def on_lost(self, *a):
+        self.counter(*a)
+
+
 def traffic_steps(rng, scenario_idx):
     """A scripted history; each step is (kind, args).  Loss can be injected before any step."""
     r = random.Random('c09b/%s' % scenario_idx)
@@ -459,6 +467,10 @@ def established_case(ctx, scenario_idx, lose_at, partial, case):
                     obj.notifyOnDisconnect(rec['cb'])
                     obj.cancelNotifyOnDisconnect(c_)
                     cancelled.append(('proxy', c_))
+                    l_ = Listener()
+                    obj.notifyOnDisconnect(l_.on_lost)
+                    obj.cancelNotifyOnDisconnect(l_.on_lost)
+                    cancelled.append(('proxy (bound method)', l_.counter))
                 else:
                     obj.notifyOnDisconnect(rec['cb'])
                 return obj
@@ -514,6 +526,17 @@ def established_case(ctx, scenario_idx, lose_at, partial, case):
                     conn.cancelNotifyOnDisconnect(c_)
                     cancelled.append(('connection', c_))
                     dcs['x%d' % a['idx']] = extra
+                    # a listener object's METHOD registered and cancelled (each attribute access makes a new, equal,
+                    # bound-method object), and one callable registered twice and cancelled once (still in force once)
+                    l_ = Listener()
+                    conn.notifyOnDisconnect(l_.on_lost)
+                    conn.cancelNotifyOnDisconnect(l_.on_lost)
+                    cancelled.append(('connection (bound method)', l_.counter))
+                    twice = Counter('twice-dc%d' % a['idx'])
+                    conn.notifyOnDisconnect(twice)
+                    conn.notifyOnDisconnect(twice)
+                    conn.cancelNotifyOnDisconnect(twice)
+                    dcs['t%d' % a['idx']] = twice
                 if a['idx'] == 0 and scenario_idx % 3 == 0:
                     # a listener that says goodbye on the dying connection (with and without a deadline): whatever it
                     # starts must be finished off by the same loss and nothing may fire later
